@@ -1,2 +1,7 @@
-EXTRA_CLAIMS = {}
-EXTRA_PENDING = {k: "not yet claimed: the contract units for this property are still being built (see DESIGN.md build order); will be claimed or given its final not-applicable reason" for k in ["C07", "C08", "C15", "C16", "C18", "C20"]}
+EXTRA_CLAIMS = {
+ "C18": dict(level="proof", design="DESIGN.md §3 C18",
+   technique="contract-based deductive verification: Kani function-contract harnesses (loop-free, full domain) on the real GlobalAlloc wrapper and span arithmetic",
+   text="For every layout, pointer, size and counter pre-state, each of the four GlobalAlloc methods forwards its arguments unchanged exactly once, returns the inner result and counts (requested size | full new size, 1) resp. nothing for frees on this thread; span = end - start; report totals are exact sums of spans. Loop-free harnesses over fully symbolic inputs: complete for one thread.",
+   note="Kani executes atomics sequentially: totals racing with allocation on other threads are not decided. Registry-of-threads sums are checked for 1..2 threads (bounded)."),
+}
+EXTRA_PENDING = {k: "not yet claimed: the contract units for this property are still being built (see DESIGN.md build order); will be claimed or given its final not-applicable reason" for k in ["C07", "C08", "C15", "C16", "C20"]}
